@@ -1,6 +1,8 @@
 package main
 
 import (
+	"crypto/sha256"
+	"encoding/hex"
 	"encoding/json"
 	"fmt"
 	"os"
@@ -691,10 +693,10 @@ func doCheck(b builds, cfg tierCfg) int {
 			code = 1
 		}
 	}
-	if !degraded && viol == nil && cmp > 0 && eq != cmp && len(b.rep.MapRange) == 0 && len(b.rep.ImportsOfNote) == 0 && b.rep.NShared == 0 {
+	if !degraded && viol == nil && cmp > 0 && eq != cmp && len(b.rep.MapRange) == 0 && len(b.rep.ImportsOfNote) == 0 && b.rep.NShared == 0 && pinnedSources() {
 		fatal("run signatures differ between the race and the plain build for the same seed (%d of %d equal) although the tree has no uncontrolled nondeterminism source: simulator bug", eq, cmp)
 	}
-	if st != nil && !st.ok && len(b.rep.MapRange) == 0 && len(b.rep.ImportsOfNote) == 0 && b.rep.NShared == 0 {
+	if st != nil && !st.ok && len(b.rep.MapRange) == 0 && len(b.rep.ImportsOfNote) == 0 && b.rep.NShared == 0 && pinnedSources() {
 		fatal("determinism self-test failed: %s", st.detail)
 	}
 	if mt != nil && !mt.ok {
@@ -731,3 +733,37 @@ func usesClock(b builds) bool {
 var soakN = 70000
 
 func soakCallsFor() int { return soakN }
+
+// pinnedSources: are the library sources byte-identical to the pinned commit this
+// framework was developed against (fingerprint in pinned_sources.sha256)? Only then is a
+// signature difference between the two builds certainly the simulator's fault; on any
+// other tree it is reported in the evidence and nothing more.
+func pinnedSources() bool {
+	want, err := os.ReadFile(filepath.Join(verifDir, "pinned_sources.sha256"))
+	if err != nil {
+		return false
+	}
+	return strings.TrimSpace(string(want)) == sourcesFingerprint()
+}
+
+func sourcesFingerprint() string {
+	h := sha256.New()
+	for _, dir := range []string{"spdxexp", "spdxexp/spdxlicenses"} {
+		ents, err := os.ReadDir(filepath.Join(repoDir, dir))
+		if err != nil {
+			return "unreadable"
+		}
+		for _, e := range ents {
+			if e.IsDir() || !strings.HasSuffix(e.Name(), ".go") || strings.HasSuffix(e.Name(), "_test.go") {
+				continue
+			}
+			b, err := os.ReadFile(filepath.Join(repoDir, dir, e.Name()))
+			if err != nil {
+				return "unreadable"
+			}
+			fmt.Fprintf(h, "%s/%s %d\n", dir, e.Name(), len(b))
+			h.Write(b)
+		}
+	}
+	return hex.EncodeToString(h.Sum(nil))
+}
